@@ -214,7 +214,7 @@ def nodeBranches (n : Node) (inp : Edge) (out : Edge) : List String :=
     tag "eval" ((if rs.any (·.isSome) then ["ok"] else []) ++ (if rs.contains none then ["error-drop"] else []) ++
       (if c.keep then (if c.keepList ≠ [] then ["keep-list"] else ["keep-all"]) else ["no-keep"]) ++
       (if c.tags ≠ [] then ["tags"] else []) ++ (if c.exprs.length ≥ 2 then ["multi-expr"] else []) ++
-      (if all.any (fun p => evalShadowed c p.fields p.tags) then ["result-shadowed"] else []) ++
+      (if all.any (fun p => evalShadowed c p.fields p.tags) then ["result-named-like-field-reused"] else []) ++
       (if c.exprs.length ≥ 2 && (c.exprs.drop 1).any (fun e => e.refs.any (fun r => c.as.contains r)) then ["uses-earlier-result"] else []) ++ common)
   | .default_ cf ct =>
     tag "default" ((if all.any (fun p => cf.any (fun kv => (aget p.fields kv.1).isNone)) then ["field-set"] else []) ++
@@ -503,17 +503,6 @@ def judge (_id : String) (lines : Array String) : Verdict := Id.run do
       match specOut node inp with
       | some sp => if !edgeEquivB sp obs then return .specfail "flatten-spec" s!"node {n.id}: documented {short (renderEdge sp)} observed {short outToks}"
       | none => br := br ++ ["flatten:unordered-times-model-only"]
-    | .eval c =>
-      match specOut node inp with
-      | some sp =>
-        if !edgeEquivB sp obs then
-          let shadow := match inp with
-            | .stream ps => ps.any (fun p => evalShadowed c p.fields p.tags)
-            | .batch bs => bs.any (fun b => b.points.any (fun p => evalShadowed c p.fields p.tags))
-          if shadow && edgeEquivB (Node.run node inp) obs then
-            knownHit := some ("eval-result-shadowed", s!"node {n.id}: a result named like an existing field/tag was overwritten by a later reference")
-          else return .specfail "eval-spec" s!"node {n.id}: documented {short (renderEdge sp)} observed {short outToks}"
-      | none => pure ()
     | _ =>
       match specOut node inp with
       | some sp => if !edgeEquivB sp obs then return .specfail s!"{n.kind}-spec" s!"node {n.id}: documented {short (renderEdge sp)} observed {short outToks}"
